@@ -120,9 +120,17 @@ func VerifC09_PingPongStreamLayer() {
 	base.host.Store(types.Host(host))
 	pool := NewPoolPingPong(base).(*poolPingPong)
 	rounds := 1 + verif.Choose("second_request", 2)
+	var prevCtx context.Context
 	for round := 0; round < rounds; round++ {
 		rcv := &zzLRecv{}
 		ctx := zzStreamCtx()
+		// the second request may be the proxy's retry of the first: same request context, hence
+		// the same per-request buffers and the same pooled stream object
+		if round == 1 && verif.Choose("retry_same_context", 2) == 1 {
+			ctx = prevCtx
+			verif.Cover("retry")
+		}
+		prevCtx = ctx
 		_, sender, reason := pool.NewStream(ctx, rcv)
 		verif.Assert(sender != nil && reason == "", "a request within every limit was refused")
 		if sender == nil {
